@@ -32,11 +32,23 @@ pub assume_specification<T, I> [<[T]>::get_unchecked::<I>] (s: &[T], i: I) -> (r
 pub assume_specification [<str>::as_bytes_mut] (s: &mut str) -> (r: &mut [u8])
     ensures r@ == old(s).spec_bytes(), final(s).spec_bytes() == final(r)@;
 
+pub assume_specification<T> [Option::<T>::unwrap_unchecked] (o: Option<T>) -> (r: T)
+    requires o is Some,
+    ensures r == o.unwrap();
+
 /// every `str` is a byte slice, and slice lengths fit in usize (vstd states this for slices only)
 #[verifier::external_body]
 pub broadcast proof fn axiom_str_len_bound(s: &str)
     ensures #[trigger] s.spec_bytes().len() <= usize::MAX, s@.len() <= s.spec_bytes().len(),
 {
+}
+
+/// (proved) the character view of a `str` is the decoding of its bytes, and its bytes are well-formed
+pub broadcast proof fn lemma_str_view_bytes(s: &str)
+    ensures #[trigger] decode_utf8(s.spec_bytes()) == s@, valid_utf8(s.spec_bytes()),
+{
+    encode_utf8_decode_utf8(s@);
+    encode_utf8_valid_utf8(s@);
 }
 
 // position shims: bodies are the original std iterator chains, contracts state first-match semantics
